@@ -176,6 +176,47 @@ Theorem C10_hier_equals_walks_levels :
 Proof. exact (conj eq_refl eq_refl). Qed.
 Print Assumptions C10_hier_equals_walks_levels.
 
+(* Index / Series / Frame.equals of the source decide by identity, class, length/shape, name, dtype, values and then
+   the nested indexes with the SAME options; no equals method looks at how an index came about (auto-supplied indexes:
+   no label map / loc_is_iloc / IndexAutoFactory), so M_index_equals & co., which know nothing of it, describe them
+   (re-extracted on every run: a shortcut for auto-supplied indexes breaks this theorem) *)
+Theorem C10_equals_decisions_in_source :
+  c10_equals_consults_auto = false /\
+  c10_index_equals_steps =
+    ["if id(other) == id(self)";
+     "if compare_class and self.__class__ != other.__class__ | elif not isinstance(other, Index)";
+     "if self._recache";
+     "if len(self) != len(other)";
+     "if compare_name and self.name != other.name";
+     "if compare_dtype and self.dtype != other.dtype";
+     "Assign: eq = self.values == other.values";
+     "if eq is False";
+     "if skipna";
+     "if not eq.all()";
+     "return True"]%string /\
+  c10_series_equals_steps =
+    ["if id(other) == id(self)";
+     "if compare_class and self.__class__ != other.__class__ | elif not isinstance(other, Series)";
+     "if len(self.values) != len(other.values)";
+     "if compare_name and self._name != other._name";
+     "if compare_dtype and self.values.dtype != other.values.dtype";
+     "Assign: eq = self.values == other.values";
+     "if eq is False";
+     "if skipna";
+     "if not eq.all()";
+     "return self._index.equals(other._index, compare_name, compare_dtype, compare_class, skipna)"]%string /\
+  c10_frame_equals_steps =
+    ["if id(other) == id(self)";
+     "if compare_class and self.__class__ != other.__class__ | elif not isinstance(other, Frame)";
+     "if self._blocks.shape != other._blocks.shape";
+     "if compare_name and self._name != other._name";
+     "if not self._blocks.equals(other._blocks, compare_dtype=compare_dtype, compare_class=compare_class, skipna=skipna)";
+     "if not self._index.equals(other._index, compare_name=compare_name, compare_dtype=compare_dtype, compare_class=compare_class, skipna=skipna)";
+     "if not self._columns.equals(other._columns, compare_name=compare_name, compare_dtype=compare_dtype, compare_class=compare_class, skipna=skipna)";
+     "return True"]%string.
+Proof. exact (conj eq_refl (conj eq_refl (conj eq_refl eq_refl))). Qed.
+Print Assumptions C10_equals_decisions_in_source.
+
 (* HE variants: == is equals with the keyword constants of the source; it is symmetric; equal
    containers hash the same labels; the model of __hash__ hashes exactly that key *)
 Theorem C10_he_options_in_source :
